@@ -71,6 +71,10 @@ def main():
             meta = json.load(fh)
     except Exception:
         pass
+    prev = meta.get("lead_verification")
+    if prev and "caught" in prev and not prev.get("caught_with_failing_input") and "lead_verification_before_strengthening" not in meta:
+        # the check was strengthened after this miss; keep the record of the miss
+        meta["lead_verification_before_strengthening"] = prev
     meta["lead_verification"] = res
     with open(os.path.join(dst, "meta.json"), "w") as fh:
         json.dump(meta, fh, indent=1)
